@@ -132,7 +132,7 @@ def x_prog(ctx, case):
     log = recorders.Log()
     runner = programs.runner_factory_for(case.get("runner"))
     the_case = programs.build_case(program, env, runner)
-    initial = dict(program.get("scratch", {}))
+    initial = dict(program.get("scratch", {}), prop="prop-default")
     histories = []
     nontrivial = False
     for attempt in range(3):
@@ -164,7 +164,7 @@ def x_prog(ctx, case):
                   lambda: {"left": repr(the_case._cleanups), **detail()})
         snap = env.scratch.snapshot()
         if env.tags("patch"):
-            ctx.check(snap == initial and all(snap[k] is initial[k] for k in snap if k in initial),
+            ctx.check(snap == initial and all(snap[k] is initial[k] for k in snap if k in initial and k != "prop"),
                       "patch.restored", lambda: {"after": snap, "before": initial, **detail()})
         else:
             ctx.check(snap == initial, "scratch.untouched", detail)
@@ -181,7 +181,7 @@ def x_prog(ctx, case):
 
 SUBCHECKS = {"prog": x_prog}
 
-FEATURES = ("bad_fixture_detail", "own_exc", "expect", "force", "decor", "noupcall", "nested_cleanup", "truthy_return", "patch",
+FEATURES = ("setup_returns", "xfail_decor", "bad_fixture_detail", "own_exc", "expect", "force", "decor", "noupcall", "nested_cleanup", "truthy_return", "patch",
             "fixture", "handlers")
 
 
